@@ -105,6 +105,22 @@ fn c13_exec(plan: &Value, t: &mut Trials) -> RunReport {
     crate::cabort::exec(&plan, t)
 }
 
+fn c32_gen(seed: u64, run: u64, tier: Tier) -> Value {
+    serde_json::to_value(crate::cfault::generate(seed, run, tier)).unwrap()
+}
+fn c32_exec(plan: &Value, t: &mut Trials) -> RunReport {
+    let plan: crate::cfault::Plan = serde_json::from_value(plan.clone()).expect("bad plan");
+    crate::cfault::exec(&plan, t)
+}
+
+fn c19_gen(seed: u64, run: u64, tier: Tier) -> Value {
+    serde_json::to_value(crate::cterm::generate(seed, run, tier)).unwrap()
+}
+fn c19_exec(plan: &Value, t: &mut Trials) -> RunReport {
+    let plan: crate::cterm::Plan = serde_json::from_value(plan.clone()).expect("bad plan");
+    crate::cterm::exec(&plan, t)
+}
+
 const MODEL_RULE: &str = "histories = seeded sequences of public-API queries (node/edge/value/alias/index inserts, updates, removals by id, alias and search, explicit transactions with a seeded abort point) executed on one of the six database variants over SimFs, half of them interleaved with clean restarts (only durable state survives), reopening with another file-backed variant, optimize_storage and shrink_to_fit, plus benign I/O noise and the forced contended-read path; evaluations = points at which the complete observable state (every read query over every element, alias, index and the elements search, plus slice/selection probes) was compared with the abstract model; distinct_nontrivial = distinct histories (program hash) containing at least one removal and then either an id reuse or a hash-table rehash (probe)";
 const MODEL_ASSUME: &[&str] = &[
     "the model takes new element ids from the database's answer (checking sign and freshness) and search targets from the database's own search result, so it carries no id-allocation or search semantics",
@@ -160,6 +176,46 @@ pub fn all() -> Vec<CheckDef> {
         real: DB_REAL,
         stub: FS_STUB,
         eval_unit: "failed steps compared before/after",
+    });
+    v.push(CheckDef {
+        id: "C32",
+        level: "fault_enumeration",
+        generate: c32_gen,
+        exec: c32_exec,
+        steps: "/suffix",
+        runs: |t| match t {
+            Tier::Quick => 1500,
+            Tier::Thorough => 40_000,
+        },
+        wall_cap_s: |t| match t {
+            Tier::Quick => 150,
+            Tier::Thorough => 1700,
+        },
+        rule: "histories = seeded prefix of successful queries, one target query, 3-10 further queries, on the four file-backed variants over SimFs; evaluations = (history, fault position) executions: exactly one ENOSPC/EIO at the n-th mutating file-system call (log append, data write, truncate) of the target query, for every n (thorough) or an even sample of 6 (quick); judged: the target reports an error, the observable state equals the state before it, later queries behave per the model, close+reopen succeeds and shows every later successful mutation; distinct_nontrivial = executions whose failure came after at least one successful write of the target query, per distinct (program hash, position)",
+        assumptions: &["one failure per execution; the failing call has no effect on the simulated disk (ENOSPC/EIO semantics)", "reads never fail"],
+        real: DB_REAL,
+        stub: FS_STUB,
+        eval_unit: "(history, fault position) executions",
+    });
+    v.push(CheckDef {
+        id: "C19",
+        level: "exploration",
+        generate: c19_gen,
+        exec: c19_exec,
+        steps: "/steps",
+        runs: |t| match t {
+            Tier::Quick => 1500,
+            Tier::Thorough => 60_000,
+        },
+        wall_cap_s: |t| match t {
+            Tier::Quick => 150,
+            Tier::Thorough => 1700,
+        },
+        rule: "histories = seeded churn histories (100-2000 steps) cycling fresh aliases and fresh indexed values over few elements, alias/value/index removals and re-insertions, around the 64-slot minimum table and across growth, on DbImpl over a counting StorageData wrapper around MemoryStorage, FileStorage and FileStorageMemoryMapped; evaluations = queries executed under a budget of 2,000,000 storage calls each (bounded liveness in simulated steps, not wall-clock; the largest legitimate query observed is reported as counters.max_storage_calls_in_one_query), plus a full read of the database every 50 steps under the same rule; distinct_nontrivial = distinct histories (program hash) in which an insertion probed over at least 64 tombstones (probe multi_map.insert_or_replace.over_deleted)",
+        assumptions: &["a query that needs more than 2,000,000 storage calls is treated as not terminating; the measured maximum of legitimate queries is three orders of magnitude lower"],
+        real: DB_REAL,
+        stub: &["disk: in-memory SimFs", "StorageData: counting pass-through wrapper (public DbImpl::with_data seam)"],
+        eval_unit: "queries executed under the step budget",
     });
     v.push(model_def("C08", c08_gen, c08_exec));
     v.push(model_def("C09", c09_gen, c09_exec));
